@@ -23,6 +23,7 @@ import (
 	"sync"
 	"sync/atomic"
 	"time"
+	"verif/appchild"
 	"verif/gen/VI"
 
 	"github.com/TarsCloud/TarsGo/tars"
@@ -731,6 +732,41 @@ func runConfig(cfg srvCfg, ci int) {
 			time.Sleep(80 * time.Millisecond)
 		}
 	}
+	// ---- phase 3c (TCP, one worker): a client that half-closes after sending still gets its answer ----
+	// the request waits in the pool's queue behind another connection's call when the server sees
+	// the client's FIN; it was read, so it is executed and answered before the connection goes
+	if cfg.Proto == "tcp" && cfg.Pool == 1 && cfg.HandleMs == 0 {
+		gate := make(chan struct{})
+		blk := reqSpec{ID: nextID(r), Version: 1, Func: "outFirst", Timeout: 0, Token: fmt.Sprintf("c10-%d-blk", ci), Kind: "ok", Ret: 5, TokenOut: "B"}
+		w.Servant.SetDirective(blk.Token, &vworld.Directive{Ret: blk.Ret, Outs: []interface{}{blk.TokenOut}, Gate: gate})
+		clients[0].conn.Write(buildRequest(blk, obj))
+		if waitFor(func() bool { return len(w.Servant.ReceivedFor(blk.Token)) >= 1 }, 3*time.Second) {
+			if hc, err := dial("tcp", conf.Address); err == nil {
+				hs := reqSpec{ID: nextID(r), Version: 1, Func: "outFirst", Timeout: 0, Token: fmt.Sprintf("c10-%d-half", ci), Kind: "ok", Ret: 6, TokenOut: "H"}
+				w.Servant.SetDirective(hs.Token, &vworld.Directive{Ret: hs.Ret, Outs: []interface{}{hs.TokenOut}})
+				hc.conn.Write(buildRequest(hs, obj))
+				if tc, ok := hc.conn.(*net.TCPConn); ok {
+					_ = tc.CloseWrite()
+				}
+				time.Sleep(900 * time.Millisecond) // longer than the server's 500 ms clean-up poll
+				close(gate)
+				run.Eval(1)
+				if judge(cfg, w, hc, hs, func(extra map[string]interface{}) map[string]interface{} {
+					m := witBase(extra)
+					m["phase"] = "request queued behind another connection's 900 ms call; its client half-closed right after sending"
+					return m
+				}) {
+					run.Distinct(fmt.Sprintf("%s|half-closed-client", cfg))
+				}
+				hc.conn.Close()
+			} else {
+				close(gate)
+			}
+			judge(cfg, w, clients[0], blk, witBase)
+		} else {
+			close(gate)
+		}
+	}
 	// ---- phase 4 (UDP): requests accepted before a graceful shutdown are still answered ----
 	// (for TCP this is C12's matter: there the connection is the unit that drains)
 	if cfg.Proto == "udp" && cfg.HandleMs == 0 {
@@ -787,6 +823,7 @@ func runConfig(cfg srvCfg, ci int) {
 }
 
 func main() {
+	appchild.MaybeChild()
 	run = vlib.Start("C10")
 	rogger.SetLevel(rogger.OFF)
 	run.SetRule("server configurations {tcp,udp} x pool {0,1,4} x handle timeout {0,250 ms}; per configuration a pipelined burst over 1/3/10 connections of requests drawn from versions {TARS,TUP,JSON} x {two-way, one-way} x kinds {success with result values, tars.Error, plain error, tars_ping, unknown function} x functions {outFirst (out before in, result), nothing (void, no parameters), onlyOut (void, three out parameters)} x ids (sequential, negative, 1, MaxInt32) x request timeouts {0,3 s,60 s}; with pool 1: three requests (one per version) whose 50 ms timeout elapses behind a gated handler; with a handle timeout: gated over-long handlers per version and one-way. A case is one request; distinct = distinct (configuration, version, kind, one-way).")
@@ -808,5 +845,6 @@ func main() {
 		}(i, c)
 	}
 	wg.Wait()
+	appHandleTimeoutPhase()
 	run.Finish()
 }
